@@ -8,6 +8,9 @@ TRUSTED = [
     "hand-written model props/C13/coq/Model.v of pattern.Search (literal/wildcard/range searchers, Narrow, "
     "KMP findSubstring/findSequence), util.BinSearchInRange/sort.Search, Table.SelectEntries and the sealed "
     "GetTIDsByTokenExpr composition (tied to /repo by the correspondence run, not verified code)",
+    "export hooks (build tag verif): pattern/export_verif_c13.go, frac/token/export_verif_c13.go (real Provider over a "
+    "pre-filled block cache, blocks decoded by the real Block.unpack), frac/export_verif_c13.go (real writeTokensBlocks "
+    "into memory; GetTIDsByTokenExpr of a fraction's token index)",
     "Go harness harness/cmd/hC13 (generators, memory token provider, rendering of byte strings)",
     "numeric oracle: strconv.ParseFloat + an order-preserving integer key of finite float64 values, computed by "
     "the harness and supplied per case (float parsing itself is not modelled)",
